@@ -2,11 +2,11 @@
 from lib.vlib import Query
 
 
-def q(kind, alg=0, flen=0, llen=1, rderr=0, variant=0):
-    kn = {1: "sum-hash_file", 2: "sum-check_file", 3: "sum-check_garbage", 4: "sum-to_hex_digit"}[kind]
-    name = "%s:alg%d:f%d" % (kn, alg, flen) + (":l%d" % llen if kind == 3 else "") + (":rderr%d" % rderr if rderr else "") + (":v%d" % variant if kind == 2 else "")
+def q(kind, alg=0, flen=0, llen=1, rderr=0, variant=0, maincheck=0):
+    kn = {1: "sum-hash_file", 2: "sum-check_file", 3: "sum-check_garbage", 4: "sum-to_hex_digit", 6: "sum-main"}[kind]
+    name = "%s:alg%d:f%d" % (kn, alg, flen) + (":l%d" % llen if kind == 3 else "") + (":rderr%d" % rderr if rderr else "") + (":v%d" % variant if kind == 2 else "") + (":check" if maincheck else "")
     return Query(name, "harness/C19/sum.c", backend="c64", with_backend=False, with_spec=False, includes=["apps/asconsum", "apps"],
-                 defs={"KIND": kind, "ALG": alg, "FLEN": flen, "LLEN": llen, "RDERR": rderr, "VARIANT": variant},
+                 defs={"KIND": kind, "ALG": alg, "FLEN": flen, "LLEN": llen, "RDERR": rderr, "VARIANT": variant, "MAINALG": alg, "MAINCHECK": maincheck},
                  shape={"function": kn, "algorithm": alg, "file_bytes": flen, "line_chars": llen, "read_error_at": rderr}, unwind=max(100, llen + 8), timeout=900, mem_gb=12,
                  flags=["--max-field-sensitivity-array-size", "2048"])   # the tool's line buffer is 1024 bytes
 
@@ -25,6 +25,10 @@ def queries(tier):
             for flen in ([5] if tier == "quick" else [0, 5, 33]):
                 qs.append(q(2, alg, flen, variant=v))
     qs.append(q(4))
+    for alg in range(4):
+        qs.append(q(6, alg, 33))
+        qs.append(q(6, alg, 33, rderr=1))
+        qs.append(q(6, alg, 5, maincheck=1))
     for llen in ([1, 2, 63, 64, 65, 66, 67, 68, 69, 70, 80, 100] if tier == "quick" else list(range(1, 101))):
         qs.append(q(3, 0, 5, llen=llen))
     return qs
